@@ -318,6 +318,23 @@ class Ctx:
         except ValueError:
             return 0
 
+    def known_keys_of(self, suite, cases, observeds, stream=None):
+        """KnownClass of many (case, observed) pairs in one batch."""
+        ks = getattr(stream, "known_suite", None) or getattr(self.mod, "KNOWN_SUITE", {}).get(suite)
+        if not ks or not cases:
+            return [0] * len(cases)
+        if getattr(self.mod, "KNOWN_ARGS", "case") == "pair":
+            rs = run_checker(ks, list(cases), list(observeds))
+        else:
+            rs = run_model(["%s %s" % (ks, c) for c in cases])
+        out = []
+        for r in rs:
+            try:
+                out.append(int(r))
+            except ValueError:
+                out.append(0)
+        return out
+
 
 def resolve_needs(lines, max_rounds=60):
     """libm oracle protocol: a model result (2 fn arg) asks for a libm value; the harness computes it with the
@@ -400,8 +417,9 @@ def evaluate_stream(ctx, st):
         ctx.samples.append({"stream": st.name, "case": "%s %s" % (st.suite, st.cases[k][:400]), "impl": impl[k][:300], "model": model[k][:300], "predicate": verdicts[k]})
     # property predicate fails on the implementation's own output -> violation (or a listed finding)
     seen_keys = set()
-    for c, i, m in fails[:40]:
-        key = ctx.known_key_of(st.suite, c, i, st)
+    # every failing case is classified (a listed finding must not hide a new failure further down the stream)
+    keys = ctx.known_keys_of(st.suite, [f[0] for f in fails], [f[1] for f in fails], st)
+    for (c, i, m), key in zip(fails, keys):
         kf = next((k for k in ctx.known if k.get("class_id") == key and k["status"] == "known"), None) if key else None
         if kf:
             ctx.known_hits[kf["key"]] = kf["what"]
